@@ -352,6 +352,7 @@ func checkC03(p *Prog, r *Report) {
 	/* Forwarder. */
 	checkC03Forwarder(p, r, rFw, rId, rOrd, top)
 	checkC03Sink(p, r, rId)
+	checkC03TerminalWriter(p, r, r.Rule("terminal-writer", "the io.Writer under the terminal library hands each slice it is given to the terminal once (no retry loop re-issuing the same slice)"))
 	/* Close notice after the proxy: from the connect model. */
 	if a := findConnect(p); 0 == len(a.Errs) {
 		m := buildConnectModel(p, a)
@@ -693,4 +694,75 @@ func guardingFieldTestTrue(fn *ssa.Function, target ssa.Instruction, f *types.Va
 		}
 	})
 	return out
+}
+
+// checkC03TerminalWriter: the io.Writer under the terminal library writes
+// what it is given once.  A Write which is re-issued with the same slice (a
+// retry loop around a partial write) puts the part already shown on the
+// terminal again.
+func checkC03TerminalWriter(p *Prog, r *Report, ru *Rule) {
+	for _, fn := range p.Funcs() {
+		eachInstr(fn, func(i ssa.Instruction) {
+			c := callCommon(i)
+			if nil == c || "github.com/magisterquis/goxterm.NewTerminal" != calleeName(c) || 0 == len(c.Args) {
+				return
+			}
+			mi, ok := c.Args[0].(*ssa.MakeInterface)
+			if !ok {
+				return
+			}
+			ms := p.SSA.MethodSets.MethodSet(mi.X.Type())
+			var wr *ssa.Function
+			for k := 0; k < ms.Len(); k++ {
+				if "Write" == ms.At(k).Obj().Name() {
+					wr = p.SSA.MethodValue(ms.At(k))
+				}
+			}
+			if nil == wr || nil == wr.Blocks || nil == wr.Pkg || !strings.HasPrefix(wr.Pkg.Pkg.Path(), ModPath) {
+				return
+			}
+			r.Saw("func " + fnName(wr))
+			var buf *ssa.Parameter
+			for _, pa := range wr.Params {
+				if sl, ok := pa.Type().Underlying().(*types.Slice); ok && types.Identical(sl.Elem(), types.Typ[types.Byte]) {
+					buf = pa
+				}
+			}
+			if nil == buf {
+				return
+			}
+			var again ssa.Instruction
+			n := 0
+			for _, f := range withAnons(wr) {
+				eachInstr(f, func(j ssa.Instruction) {
+					cc := callCommon(j)
+					if nil == cc {
+						return
+					}
+					uses := false
+					for _, a := range callArgs(cc) {
+						if resolveFree(stripConv(a, false)) == ssa.Value(buf) {
+							uses = true
+						}
+					}
+					if !uses {
+						return
+					}
+					n++
+					if nil == again && canReach(locOf(j), j) {
+						again = j
+					}
+				})
+			}
+			k := fnName(wr) + ":writes-once"
+			switch {
+			case nil != again:
+				ru.Bad(k, posOf(again), "the terminal's writer can hand the same slice to %s again (a loop around the write): when a write was partial the part already shown is shown again", calleeName(callCommon(again)))
+			case 0 == n:
+				ru.Unproven(k, wr.Pos(), "no call taking the written slice found in the terminal's writer")
+			default:
+				ru.OK(k, wr.Pos(), "the slice is handed on once, outside any loop")
+			}
+		})
+	}
 }
